@@ -545,7 +545,7 @@ def run(chk):
 
 WORKERS = 8         # TLC workers of the model-checking runs (registered checks may use 16)
 CHUNKS = 8          # parallel judge processes (one TLC worker each)
-SIM_TRACES = 2000
+SIM_TRACES = 600
 
 
 def replay(chk, payload):
